@@ -1790,7 +1790,7 @@ class C15(Check):
     pid = "C15"
     level = "proof"
     prop_modules = ["WntrModel.Props.C15"]
-    extra_targets = ["WntrModel.Model.AmlModel"]
+    extra_targets = ["WntrModel.Model.AmlModel", "WntrModel.Gen.EvaluatorShape"]
     manifest = dict(
         category="proof",
         text="Lean theorems (Props/C15.lean) for ALL expression trees, ALL Python operator lists (an operator used twice occurs twice) and ALL "
@@ -1828,6 +1828,7 @@ class C15(Check):
     )
     trusted_base = [
         "harness/props/c15.py (reflection of operator lists by object identity, dual-number oracle) and harness/translate/amldump.py",
+        "harness/props/c15_evalshape.py (parser of the `_evaluate` opcode chain / constants / loop strides of evaluator.cpp, OperationEnum of expr.py)",
         "Lean Float = IEEE double with the platform libm (driver only)",
         "g++/CPython/SWIG for the freshly compiled evaluator",
     ]
@@ -1841,7 +1842,13 @@ class C15(Check):
     ]
 
     def translate(self, ctx):
-        pass
+        # Gen/EvaluatorShape.lean: the opcode cases of `_evaluate`, the opcode constants, OperationEnum and the loop strides, re-read
+        # from the current C++ / Python sources (Props/C15.lean §12 proves that this table IS the hand-written machine)
+        import c15_evalshape
+        sh = c15_evalshape.translate()
+        ctx.cov["evaluator_shape"] = {"opcode_cases": len(sh["cases"]), "cpp_constants": len(sh["consts"]), "OperationEnum": len(sh["enum"]),
+                                      "evaluate_updates": len(sh["strides"]["evaluate"][0]),
+                                      "csr_updates": len(sh["strides"]["evaluate_csr_jacobian"][0])}
 
     # -- one batch: real runs, two driver passes, comparisons
     def batch(self, ctx, hists, tags):
